@@ -4,6 +4,9 @@ package main
 import (
 	"fmt"
 	"os"
+	"runtime"
+	"runtime/pprof"
+	"time"
 
 	"github.com/relab/hotstuff/zverif/ev"
 	"github.com/relab/hotstuff/zverif/props"
@@ -19,6 +22,17 @@ func main() {
 	if !ok {
 		fmt.Fprintf(os.Stderr, "unknown property %s\n", id)
 		os.Exit(2)
+	}
+	if p := os.Getenv("VERIF_HEAPPROF"); p != "" { // debugging aid: heap profile and goroutine count after 60 s
+		go func() {
+			time.Sleep(60 * time.Second)
+			if w, err := os.Create(p); err == nil {
+				runtime.GC()
+				_ = pprof.WriteHeapProfile(w)
+				w.Close()
+			}
+			fmt.Fprintf(os.Stderr, "heapprof: goroutines=%d\n", runtime.NumGoroutine())
+		}()
 	}
 	r := ev.New(id, tier)
 	f(r, os.Args[3:])
